@@ -3,6 +3,7 @@ import TracklibVerif.Lemmas.ExprExact
 import TracklibVerif.Lemmas.ExprErr
 import TracklibVerif.Lemmas.ExprPre9
 import TracklibVerif.Lemmas.ExprExt
+import TracklibVerif.Lemmas.ExprAgg
 /-! # C02 — algebraic feature expressions evaluate to ordinary arithmetic on the features
 
 Property theorems only (helpers: `Lemmas/Rpn.lean`, `Lemmas/RpnChars.lean`, `Lemmas/Expr.lean`, `Lemmas/ExprRpn.lean`,
@@ -336,6 +337,23 @@ oracle, stream `externals`, not proved.) -/
 theorem operate_no_externals (tr : Tr α) (expr : Str) : operateX [] tr expr = operate tr expr :=
   operateX_nil tr expr
 
+/-- **T8 (`MIN` / `MAX` as coded vs the documented `min(x)` / `max(x)`)**: under irreflexivity and transitivity of
+the comparison, as soon as one value of the vector is below the sentinel `1e300` (above `-1e300`) the result of
+`Min` (`Max`) is the minimum (maximum) of the vector: it is one of its values and no value is below (above) it —
+NaN, which compares false with everything, is skipped. When every value is beyond the sentinel the result is the
+sentinel (`aggregate_sentinel`; finding class `extremum-beyond-sentinel`). -/
+theorem aggregate_min_max (L : OrdLaws α) (c : List α) (w : α) (hw : w ∈ c) :
+    (Scalar.lt w Scalar.big = true → minL c ∈ c ∧ ∀ v ∈ c, Scalar.lt v (minL c) = false) ∧
+    (Scalar.lt (Scalar.neg Scalar.big) w = true → maxL c ∈ c ∧ ∀ v ∈ c, Scalar.lt (maxL c) v = false) :=
+  ⟨minL_is_minimum L c w hw, maxL_is_maximum L c w hw⟩
+
+/-- … and in general: nothing is below (above) the result, which is a value of the vector strictly inside the
+sentinel or the sentinel itself. -/
+theorem aggregate_sentinel (L : OrdLaws α) (c : List α) :
+    ((∀ v ∈ c, Scalar.lt v (minL c) = false) ∧ (minL c = Scalar.big ∨ (minL c ∈ c ∧ Scalar.lt (minL c) Scalar.big = true))) ∧
+    ((∀ v ∈ c, Scalar.lt (maxL c) v = false) ∧ (maxL c = Scalar.neg Scalar.big ∨ (maxL c ∈ c ∧ Scalar.lt (Scalar.neg Scalar.big) (maxL c) = true))) :=
+  ⟨minL_spec L c, maxL_spec L c⟩
+
 /-! ## non-vacuity -/
 
 /-- the laws are those of exact arithmetic: rationals with a NaN element satisfy them -/
@@ -444,6 +462,12 @@ example : operate trEx "c=a/0".toList = (.error "err:zerodiv", trEx) := by
 /-- the new functions are part of the tree semantics: `DIODE{a}+ARGMAX{b}` on the toy scalar -/
 example : denoteM trEx (.bin '+' (.call ['D', 'I', 'O', 'D', 'E'] (.var ['a'])) (.call ['A', 'R', 'G', 'M', 'A', 'X'] (.var ['b'])))
     = .ok (.vec [3, 2, 6]) := by rfl
+
+/-- the order laws of T8 hold for the toy scalar; the sentinel is visible: `MIN{[10^300+5]}` is `10^300` -/
+example : OrdLaws Int := ⟨fun a => by simp [Scalar.lt], fun a b c h1 h2 => by
+  simp only [Scalar.lt, decide_eq_true_eq] at h1 h2 ⊢; omega⟩
+example : minL ([10 ^ 300 + 5] : List Int) = 10 ^ 300 ∧ minL ([3, -7, 4] : List Int) = -7 ∧ maxL ([3, -7, 4] : List Int) = 4 := by
+  decide +kernel
 
 /-- `operate("b*factor+k", {'factor': 2, 'k': 10})` on the toy scalar -/
 example : (operateX [(['f', 'a', 'c', 't', 'o', 'r'], 2), (['k'], 10)] trEx "b*factor+k".toList).1.toOption = some (some [14, 14, 20]) := by
